@@ -29,10 +29,13 @@ def configs(tier, seed):
     out = []
     nmax = 7 if tier == "quick" else 9
     for n in range(1, nmax + 1):
-        for ctx_ in ("alone", "after-quic-same-address", "after-quic-other-address"):
+        for ctx_ in ("alone", "after-quic-same-address", "after-quic-other-address", "inside-quic0-other-address"):
             if ctx_ != "alone" and (n > (5 if tier == "quick" else 6) or (tier == "quick" and n not in (1, 3, 5))):
                 continue
             out.append({"harness": "udp", "name": "udp-%d-%s" % (n, ctx_), "n": n, "context": ctx_})
+    # a datagram long enough to get through header-protection removal (sample = bytes 5..20) of a short-header packet
+    for ctx_ in ("after-quic-same-address", "after-quic-other-address", "inside-quic0-other-address", "inside-quic0-same-address"):
+        out.append({"harness": "udp", "name": "udp-24-%s" % ctx_, "n": 24, "context": ctx_, "short_header": True})
     for lens in ([(3,), (6,), (5, 3)] if tier == "quick" else [(1,), (4,), (5,), (6,), (9,), (5, 3), (3, 5), (6, 6)]):
         out.append({"harness": "tcp", "name": "tcp-" + "+".join(str(x) for x in lens), "lens": list(lens)})
     for v in TLS_VICTIMS:
@@ -58,7 +61,7 @@ def configs(tier, seed):
 
 
 def bounds(tier):
-    return {"udp": "1..%d arbitrary bytes (every value), alone / after a complete QUIC connection from the same or another address" % (7 if tier == "quick" else 10),
+    return {"udp": "1..%d arbitrary bytes (every value), alone / after a complete QUIC connection from the same or another address / between the last datagrams of a QUIC connection whose client uses a zero-length connection id, from other endpoints (the connection's export must not change)" % (7 if tier == "quick" else 10),
             "tcp": "arbitrary bytes to port 443 in one or two segments of <= 6 (thorough 9) bytes",
             "fault": "victims %s and QUIC (0x1301); faults %s; position of the deleted/shortened/overwritten packet and byte solver-chosen "
                      "(overwrite: payload byte 5 or the last byte (thorough: also 4, 9, middle) of any packet xor 0x01/0xff (thorough: also 0x40/0x80))" % (sorted(TLS_VICTIMS), FAULTS),
@@ -124,7 +127,7 @@ def _fail_detail(e):
 
 
 def _run_udp(cfg):
-    from tlv.sx.core import ctx
+    from tlv.sx.core import ctx, sym_choice
     from tlv.sx.symbytes import sym_bytes
     from tlv.harness import pipeline as P, rundriver as RD, c02
     from tlv.harness.common import explore_cfg
@@ -135,22 +138,35 @@ def _run_udp(cfg):
         c = ctx()
         blocks, keylog = [], []
         ep = P.Endpoint(ipv=4)
+        inside = cfg["context"].startswith("inside")
         if cfg["context"] != "alone":
-            qcfg = {"suite": 0x1301, "offered": [0x1301], "odcid_len": 8, "c_cid_len": 4, "s_cid_len": 8, "n_app": 1, "data_len": 1, "sym_dirs": False, "dirs": [0]}
+            qcfg = {"suite": 0x1301, "offered": [0x1301], "odcid_len": 8, "c_cid_len": 0 if "quic0" in cfg["context"] else 4, "s_cid_len": 8,
+                    "n_app": 2, "data_len": 1, "sym_dirs": False, "dirs": [0, 1]}
             dgrams, keylog, meta = QS.build(qcfg, SC.SymSrc("q."))
             c02.assume_cids_prefix_free(c, meta)
             c02.assume_no_accidental_cid(c, meta, dgrams)
             blocks += [(float(ts), fr) for fr, ts, _ in P.udp_frames(ep, dgrams)]
         payload = sym_bytes("udp", cfg["n"])
-        src_ep = ep if cfg["context"] != "after-quic-other-address" else P.Endpoint(ipv=4, c_port=52000, c_ip=b"\x0a\x00\x00\x07")
+        if cfg.get("short_header"):
+            c.assume((payload[0] & 0xC0) == 0x40)
+        src_ep = ep if "other-address" not in cfg["context"] else P.Endpoint(ipv=4, c_port=52000, c_ip=b"\x0a\x00\x00\x07", s_ip=b"\x0a\x00\x00\x08", s_port=9999)
         seg = F.udp_segment(F.u16(src_ep.c_port), F.u16(src_ep.s_port), payload)
-        blocks.append((500.0, F.ethernet(src_ep.s_mac, src_ep.c_mac, False, F.ip_header(False, src_ep.c_ip, src_ep.s_ip, 17, len(seg)) + seg)))
+        foreign = F.ethernet(src_ep.s_mac, src_ep.c_mac, False, F.ip_header(False, src_ep.c_ip, src_ep.s_ip, 17, len(seg)) + seg)
+        healthy = list(blocks)
+        if inside and blocks:
+            pos = sym_choice("foreign_pos", list(range(len(blocks) - 2, len(blocks) + 1)))
+            blocks.insert(pos, (blocks[pos - 1][0] + 0.5, foreign))
+        else:
+            blocks.append((500.0, foreign))
         try:
-            _run(mods, blocks, keylog)
+            out = _run(mods, blocks, keylog)
+            ref = _run(mods, healthy, keylog) if healthy and "other-address" in cfg["context"] else None
         except (Exception, RD.ExitCalled) as e:
             c.fail("run-completes", _fail_detail(e))
             return {"outcome": "aborted"}
         c.check(True, "run-completes")
+        if ref is not None:
+            c.check(_same(_summ(out, ep, "UDP"), _summ(ref, ep, "UDP")), "bystander-unaffected", "a datagram between other endpoints changed the export of the QUIC connection")
         return {"outcome": "completed", "validate": False}
     return explore_cfg(scenario, cfg, timeout_ms=60000, sample_paths=1, max_paths=60000, max_concretise=600)
 
@@ -372,13 +388,26 @@ def replay(cfg, viol):
     sent = None
     if h == "udp":
         if cfg["context"] != "alone":
-            qcfg = {"suite": 0x1301, "offered": [0x1301], "odcid_len": 8, "c_cid_len": 4, "s_cid_len": 8, "n_app": 1, "data_len": 1, "sym_dirs": False, "dirs": [0]}
+            qcfg = {"suite": 0x1301, "offered": [0x1301], "odcid_len": 8, "c_cid_len": 0 if "quic0" in cfg["context"] else 4, "s_cid_len": 8,
+                    "n_app": 2, "data_len": 1, "sym_dirs": False, "dirs": [0, 1]}
             dgrams, kl, meta = QS.build(qcfg, SC.ConcreteSrc(inp, prefix="q."))
             pk += e2e.concrete_udp_frames(ep, dgrams)
-        src_ep = ep if cfg["context"] != "after-quic-other-address" else P.Endpoint(ipv=4, c_port=52000, c_ip=b"\x0a\x00\x00\x07")
-        pk.append((F.concrete_udp_frame(src_ep.c_mac, src_ep.s_mac, False, src_ep.c_ip, src_ep.s_ip, src_ep.c_port, src_ep.s_port, bytes.fromhex(inp["udp"])), 500000000))
+        src_ep = ep if "other-address" not in cfg["context"] else P.Endpoint(ipv=4, c_port=52000, c_ip=b"\x0a\x00\x00\x07", s_ip=b"\x0a\x00\x00\x08", s_port=9999)
+        healthy = list(pk)
+        fr = F.concrete_udp_frame(src_ep.c_mac, src_ep.s_mac, False, src_ep.c_ip, src_ep.s_ip, src_ep.c_port, src_ep.s_port, bytes.fromhex(inp["udp"]))
+        if cfg["context"].startswith("inside") and pk:
+            opts = list(range(len(pk) - 2, len(pk) + 1))
+            pos = opts[inp.get("foreign_pos", 0)]
+            pk.insert(pos, (fr, pk[pos - 1][1] + 500000))
+        else:
+            pk.append((fr, 500000000))
         r = e2e.run_tlexport(pk, e2e.keylog_text(kl))
-        return {"reproduced": bool(r["problems"]), "problems": r["problems"][:3]}
+        problems = list(r["problems"])
+        if healthy and "other-address" in cfg["context"] and not problems:
+            r0 = e2e.run_tlexport(healthy, e2e.keylog_text(kl))
+            if e2e.udp_of(r, ep) != e2e.udp_of(r0, ep):
+                problems.append("the foreign datagram changed the export of the QUIC connection")
+        return {"reproduced": bool(problems), "problems": problems[:3]}
     if h == "tcp":
         pk = bystander_frames(300000000)
         seq = 1
